@@ -71,6 +71,7 @@ type ScenOpts struct {
 	OldSpec        bool    // store flows at spec 13.0 so that lazy migration runs
 	RefreshP       float64 // probability that a resume carries a refreshed contact / environment (0 = default)
 	EnvSensitive   bool    // plant templates whose value depends on the environment
+	InvalidP       float64 // probability that one flow gets a structural invalidity the loader must reject (discarded on correct code)
 }
 
 type scenGen struct {
@@ -140,6 +141,7 @@ var queryPool = []string{
 	`district = "Gasabo"`, `ward = "Gisozi"`, `last_seen_on != ""`, `last_seen_on = ""`, `last_seen_on > "2018-01-01"`, `tickets > 0`, `tickets = 0`,
 	`created_on > "2018-01-01"`, `created_on < "2018-01-01"`, `created_on = "2018-06-20"`, `nick = "bobby"`, `nick ~ "bob"`, `nick != ""`,
 	`age > 10 AND age < 30`, `age > 18 OR gender = "male"`, `name ~ "bob" AND (language = "eng" OR tickets > 0)`, `gender = "male" AND tel != ""`,
+	`tel != "+12065551212"`, `urn != "+12065551212"`, `twitter != "bobby"`, `language != "spa"`, `tel != "+250788123123" AND tel != ""`, `created_on = "2018-01-01"`, `joined = "2018-01-01"`, `last_seen_on = "2018-01-01"`, `joined < "2018-01-01"`, `created_on >= "2018-06-20"`,
 	`last_seen_on != "" AND age != ""`, `(age = "" OR age < 5) AND name != ""`, `joined > "2018-01-01" OR last_seen_on > "2018-01-01"`,
 }
 
@@ -351,6 +353,10 @@ func (g *scenGen) flow(idx int, ftype string) M {
 	for i := range nodes {
 		nodeJSON = append(nodeJSON, g.node(i, nodes, ftype, idx, loc))
 	}
+	if g.o.InvalidP > 0 && len(nodeJSON) > 0 && r.Chance(g.o.InvalidP) {
+		g.plantInvalid(nodeJSON, ftype)
+		g.note("planted-invalid-definition")
+	}
 	spec := "13.6.1"
 	f := M{
 		"uuid": g.flowRefs[idx]["uuid"], "name": g.flowRefs[idx]["name"], "spec_version": spec, "language": g.baseLang, "type": ftype,
@@ -360,6 +366,57 @@ func (g *scenGen) flow(idx int, ftype string) M {
 		f["nodes"] = []any{}
 	}
 	return f
+}
+
+// plantInvalid makes the definition structurally invalid in one way; a loader that accepts it is broken, and what the
+// engine then does with it (a step leaving by an exit of another node, …) is visible to the monitors.
+func (g *scenGen) plantInvalid(nodes []any, ftype string) {
+	r := g.r
+	n := nodes[r.Intn(len(nodes))].(M)
+	other := nodes[r.Intn(len(nodes))].(M)
+	rt, _ := n["router"].(M)
+	switch r.Intn(6) {
+	case 0: // a category whose exit belongs to another node
+		if rt != nil && other["uuid"] != n["uuid"] {
+			cats := rt["categories"].([]any)
+			oe := other["exits"].([]any)
+			cats[r.Intn(len(cats))].(M)["exit_uuid"] = oe[r.Intn(len(oe))].(M)["uuid"]
+			return
+		}
+		fallthrough
+	case 1: // an exit that leads nowhere known
+		ex := n["exits"].([]any)
+		ex[r.Intn(len(ex))].(M)["destination_uuid"] = UUID4(r)
+	case 2: // default category that is not a category
+		if rt != nil && rt["type"] == "switch" {
+			rt["default_category_uuid"] = UUID4(r)
+			return
+		}
+		fallthrough
+	case 3: // timeout category that is not a category
+		if rt != nil {
+			if w, ok := rt["wait"].(M); ok && w["type"] == "msg" {
+				w["timeout"] = M{"seconds": 60, "category_uuid": UUID4(r)}
+				return
+			}
+		}
+		fallthrough
+	case 4: // a case pointing at a category that does not exist
+		if rt != nil {
+			if cs, ok := rt["cases"].([]any); ok && len(cs) > 0 {
+				cs[r.Intn(len(cs))].(M)["category_uuid"] = UUID4(r)
+				return
+			}
+		}
+		fallthrough
+	default: // two nodes with the same UUID
+		if other["uuid"] != n["uuid"] {
+			other["uuid"] = n["uuid"]
+		} else {
+			ex := n["exits"].([]any)
+			ex[0].(M)["destination_uuid"] = UUID4(r)
+		}
+	}
 }
 
 func (g *scenGen) dest(i int, nodes []nodeSpec) any {
@@ -1145,11 +1202,100 @@ func (g *scenGen) resumes() {
 
 // contactRefresh builds a refreshed contact (same UUID, different attributes).
 func (g *scenGen) contactRefresh(orig M) M {
+	r := g.r
+	if r.Chance(0.35) {
+		// the session's contact as it is at that moment (resolved by the driver) with exactly one attribute changed
+		return M{"__session_contact__": fw.Pick(r, []string{"identical", "ticket-assignee", "ticket-unassign", "ticket-topic", "ticket-close", "name", "language", "last-seen", "urn-display", "urn-reorder", "field-text", "timezone", "id"})}
+	}
+	if r.Chance(0.5) {
+		// a minimal refresh: the contact as it was given in the trigger with exactly ONE attribute changed (a refresh that
+		// differs from the session contact in a single, easily overlooked attribute must still be announced)
+		b, _ := json.Marshal(orig)
+		var c M
+		json.Unmarshal(b, &c)
+		switch r.Intn(12) {
+		case 0:
+			c["name"] = fmt.Sprint(c["name"]) + " Jr"
+		case 1:
+			c["language"] = Pick2(r, []string{"eng", "spa", "fra"}, fmt.Sprint(c["language"]))
+		case 2:
+			c["timezone"] = Pick2(r, []string{"Africa/Kigali", "Asia/Kolkata", "America/Guayaquil"}, fmt.Sprint(c["timezone"]))
+		case 3:
+			c["status"] = Pick2(r, []string{"active", "blocked", "stopped", "archived"}, fmt.Sprint(c["status"]))
+		case 4:
+			f, _ := c["fields"].(map[string]any)
+			if f == nil {
+				f = map[string]any{}
+			}
+			f["nick"] = map[string]any{"text": "refreshed"}
+			c["fields"] = f
+		case 5:
+			if f, ok := c["fields"].(map[string]any); ok {
+				for k := range f {
+					delete(f, k) // drop one field value (map order does not matter: whichever goes, exactly one attribute differs)
+					break
+				}
+			}
+		case 6:
+			us, _ := c["urns"].([]any)
+			c["urns"] = append(us, "tel:+12065550101")
+		case 7:
+			if us, ok := c["urns"].([]any); ok && len(us) > 1 {
+				us[0], us[len(us)-1] = us[len(us)-1], us[0]
+			} else if len(us) == 1 {
+				c["urns"] = []any{fmt.Sprint(us[0]) + "#Display"}
+			}
+		case 8:
+			// ticket: same UUID, another assignee / topic; or closed; or newly opened
+			if t, ok := c["ticket"].(map[string]any); ok {
+				switch r.Intn(3) {
+				case 0:
+					t["assignee"] = map[string]any{"email": "jim@nyaruka.com", "name": "Jim"}
+					if a, ok := t["assignee"].(map[string]any); ok && orig["ticket"] != nil {
+						if oa, ok := orig["ticket"].(M)["assignee"].(M); ok && oa["email"] == a["email"] {
+							delete(t, "assignee")
+						}
+					}
+				case 1:
+					t["topic"] = ref(g.topics[1])
+					if ot, ok := orig["ticket"].(M)["topic"].(M); ok && ot["uuid"] == g.topics[1]["uuid"] {
+						t["topic"] = ref(g.topics[0])
+					}
+				default:
+					delete(c, "ticket")
+				}
+			} else {
+				c["ticket"] = map[string]any{"uuid": UUID4(r), "topic": ref(g.topics[0])}
+			}
+		case 9:
+			c["last_seen_on"] = "2018-06-22T09:00:00Z"
+		case 10:
+			gs, _ := c["groups"].([]any)
+			if len(gs) > 0 {
+				c["groups"] = gs[1:]
+			} else if len(g.static) > 0 {
+				c["groups"] = []any{ref(g.static[0])}
+			}
+		default:
+			c["id"] = r.Range(100000, 200000)
+		}
+		return c
+	}
 	c := g.contact()
 	c["uuid"] = orig["uuid"]
 	c["id"] = orig["id"]
 	c["created_on"] = orig["created_on"]
 	return c
+}
+
+// Pick2 picks an element of xs different from not.
+func Pick2(r *fw.Rand, xs []string, not string) string {
+	for i := 0; i < 8; i++ {
+		if x := fw.Pick(r, xs); x != not {
+			return x
+		}
+	}
+	return xs[0]
 }
 
 func (g *scenGen) options() {
